@@ -26,6 +26,7 @@ import (
 	"errors"
 	"fmt"
 	"io/fs"
+	"crypto/x509/pkix"
 	"math/big"
 	"math/rand"
 	"os"
@@ -49,7 +50,12 @@ func init() { register("C18", runC18) }
 
 type c18Item struct {
 	Key  string `json:"key"`
-	Kind string `json:"kind"` // dir | cert | staple | staple0 | lastclean | lastclean_notls | raw
+	Kind string `json:"kind"` // dir | cert | bundle | staple | staple0 | lastclean | lastclean_notls | raw
+	// bundle: a .crt file with several PEM blocks. Text = layout: "leaf+int" (leaf, then an intermediate), "int+leaf"
+	// (order swapped), "leaf+int+int", "leaf+key" (a PRIVATE KEY block after the leaf), "text+leaf" (text before the
+	// first block), "key+leaf" (a non-certificate block first). Off = NotAfter-now of the leaf, Off2 = of the
+	// intermediate(s). pem.Decode yields the FIRST block: that one decides (certmagic stores the leaf first)
+	Off2 int64 `json:"off2,omitempty"`
 	Off  int64  `json:"off,omitempty"`  // cert: NotAfter-now (s); staple: NextUpdate-now (s); lastclean: Timestamp-now (s)
 	Text string `json:"text,omitempty"` // raw: contents; lastclean: instance id
 	Why  string `json:"why,omitempty"`  // generator's label (histogram only)
@@ -69,6 +75,13 @@ type c18Run struct {
 	// Fops: what ANOTHER actor (no storage_clean lock) does to the storage just before call number At
 	// of this run (0 = Lock); Why/Race are the generator's labels
 	Fops []c18Fop `json:"fops,omitempty"`
+	// PFaults: Delete calls that take effect IN PART and then report an error (os.RemoveAll that removes some of
+	// what the key covers, then fails): the wrapper removes everything below the key except the last file (in key
+	// order) and the folders leading to it; a key with nothing below it is removed entirely
+	PFaults []int `json:"pfaults,omitempty"`
+	// Kill: the cleaner's process dies when this call begins (-1/0 = never): no further call has any effect, the
+	// lock is not released; afterwards the harness lets the lock go stale (FileStorage: lock file back-dated)
+	Kill int `json:"kill,omitempty"`
 }
 
 type c18Fop struct {
@@ -86,6 +99,11 @@ type c18Spec struct {
 	// AlignPhase: wait until the wall clock is 0.30-0.45 s into a second before materialising, so
 	// that thresholds on whole seconds (x509 NotAfter, expiresAt's +1 s) are >= 0.3 s away on both sides
 	AlignPhase bool `json:"align_phase,omitempty"`
+	// PreLock (FileStorage): state of locks/storage_clean.lock before the first run. "stale": left by a dead
+	// holder an hour ago (Lock removes it and proceeds); "live": a live holder keeps it (Lock waits until the
+	// context expires after LockTimeoutMs and CleanStorage returns without touching anything)
+	PreLock       string `json:"pre_lock,omitempty"`
+	LockTimeoutMs int    `json:"lock_timeout_ms,omitempty"`
 }
 
 // ---------------------------------------------------------------- logging wrapper
@@ -137,15 +155,33 @@ type c18Wrap struct {
 	// foreign: called at the beginning of call number idx (another actor acts on the back-end)
 	foreign  func(idx int)
 	inUnlock bool
+	// partial Deletes: partial(key) removes part of what key covers on the back-end and returns the keys it kept
+	pfaults map[int]bool
+	partial func(key string) []string
+	kept    map[int][]string
+	// death of the process
+	killAt      int
+	dead        bool
+	lockTimeout time.Duration
 }
+
+type c18KilledPanic struct{}
 
 var c18ErrInjected = errors.New("injected storage fault")
 
 func (w *c18Wrap) String() string { return fmt.Sprintf("c18wrap:%d", w.tid) }
 
 func (w *c18Wrap) begin() (idx int, fault bool) {
+	if w.dead {
+		// only reached from CleanStorage's deferred Unlock while the kill's panic unwinds: a dead process does nothing
+		return -1, true
+	}
 	idx = w.n
 	w.n++
+	if w.killAt > 0 && idx == w.killAt {
+		w.dead = true
+		panic(c18KilledPanic{})
+	}
 	if idx == w.cancelAt && w.cancel != nil {
 		w.cancel()
 	}
@@ -169,13 +205,22 @@ func (w *c18Wrap) Lock(ctx context.Context, name string) error {
 	if w.announce != nil {
 		w.announce()
 	}
-	err := w.inner.Lock(c18Live(ctx), name)
+	lctx := c18Live(ctx)
+	if w.lockTimeout > 0 {
+		var cancel context.CancelFunc
+		lctx, cancel = context.WithTimeout(lctx, w.lockTimeout)
+		defer cancel()
+	}
+	err := w.inner.Lock(lctx, name)
 	w.tLock = time.Now()
 	w.tr.add(c18Event{w.tid, 0, name, err == nil})
 	return err
 }
 
 func (w *c18Wrap) Unlock(ctx context.Context, name string) error {
+	if w.dead {
+		return c18ErrInjected
+	}
 	w.inUnlock = true
 	_, fault := w.begin()
 	w.tUnlock = time.Now()
@@ -230,6 +275,11 @@ func (w *c18Wrap) Delete(ctx context.Context, key string) error {
 		w.tr.add(c18Event{w.tid, 5, key, false})
 		return c18ErrInjected
 	}
+	if w.pfaults[idx] && w.partial != nil {
+		w.kept[idx] = w.partial(key)
+		w.tr.add(c18Event{w.tid, 5, key, false})
+		return c18ErrInjected
+	}
 	if w.efaults[idx] {
 		w.inner.Delete(c18Live(ctx), key)
 		w.tr.add(c18Event{w.tid, 5, key, false})
@@ -278,12 +328,19 @@ func c18NewMat() *c18Mat {
 	if err != nil {
 		panic(err)
 	}
-	kp, _ := certmagic.PEMEncodePrivateKey(k)
+	der, err := x509.MarshalECPrivateKey(k) // standard library only: nothing of the code under test shapes the material
+	if err != nil {
+		panic(err)
+	}
+	kp := pem.EncodeToMemory(&pem.Block{Type: "EC PRIVATE KEY", Bytes: der})
 	return &c18Mat{ca: doubles.NewCA("C18 harness CA"), pub: &k.PublicKey, keyPEM: kp}
 }
 
 func (m *c18Mat) cert(name string, notAfter time.Time) []byte {
-	nb := notAfter.Add(-90 * 24 * time.Hour)
+	return m.certNB(name, notAfter.Add(-90*24*time.Hour), notAfter)
+}
+
+func (m *c18Mat) certNB(name string, nb, notAfter time.Time) []byte {
 	chain, _, _, err := m.ca.Leaf(doubles.LeafOpts{Names: []string{name}, NotBefore: nb, NotAfter: notAfter, Pub: m.pub})
 	if err != nil {
 		panic(err)
@@ -291,8 +348,65 @@ func (m *c18Mat) cert(name string, notAfter time.Time) []byte {
 	return chain
 }
 
-func (m *c18Mat) staple(nextUpdate time.Time, withNext bool) []byte {
+// interm makes an intermediate-like CA certificate with the given NotAfter (signed by the harness CA)
+func (m *c18Mat) interm(notAfter time.Time) []byte {
+	tpl := &x509.Certificate{SerialNumber: big.NewInt(time.Now().UnixNano()), Subject: pkix.Name{CommonName: "C18 old intermediate"},
+		NotBefore: notAfter.Add(-5 * 365 * 24 * time.Hour), NotAfter: notAfter, IsCA: true, BasicConstraintsValid: true,
+		KeyUsage: x509.KeyUsageCertSign}
+	der, err := x509.CreateCertificate(crand.Reader, tpl, m.ca.Cert, m.pub, m.ca.Key)
+	if err != nil {
+		panic(err)
+	}
+	return pem.EncodeToMemory(&pem.Block{Type: "CERTIFICATE", Bytes: der})
+}
+
+// leafOnly is the leaf's PEM block alone (doubles.CA.Leaf appends the CA certificate)
+func (m *c18Mat) leafOnly(name string, notAfter time.Time) []byte {
+	chain := m.cert(name, notAfter)
+	blk, _ := pem.Decode(chain)
+	return pem.EncodeToMemory(blk)
+}
+
+func (m *c18Mat) bundle(it c18Item, now time.Time) []byte {
+	leaf := m.leafOnly(c18SiteName(it.Key), now.Add(time.Duration(it.Off)*time.Second))
+	in := m.interm(now.Add(time.Duration(it.Off2) * time.Second))
+	keyBlk := pem.EncodeToMemory(&pem.Block{Type: "PRIVATE KEY", Bytes: []byte("not really a key")})
+	switch it.Text {
+	case "leaf+int":
+		return append(leaf, in...)
+	case "int+leaf":
+		return append(in, leaf...)
+	case "leaf+int+int":
+		return append(append(leaf, in...), m.interm(now.Add(time.Duration(it.Off2-86400)*time.Second))...)
+	case "leaf+key":
+		return append(append(leaf, keyBlk...), []byte("trailing text\n")...)
+	case "text+leaf":
+		return append([]byte("Bag Attributes\n    friendlyName: exported\n"), append(leaf, in...)...)
+	case "key+leaf":
+		return append(keyBlk, leaf...)
+	}
+	panic("unknown bundle layout " + it.Text)
+}
+
+func (m *c18Mat) staple(nextUpdate time.Time, withNext bool) []byte { return m.stapleV(nextUpdate, withNext, "") }
+
+// stapleV: variant = what else the response says; only NextUpdate decides whether a staple is stale
+// ("revoked", "unknown": certificate status; "recent", "future_this": ThisUpdate an hour ago / in an hour instead of
+// 500 days ago; "withcert": the responder's certificate is embedded)
+func (m *c18Mat) stapleV(nextUpdate time.Time, withNext bool, variant string) []byte {
 	tpl := ocsp.Response{Status: ocsp.Good, SerialNumber: big.NewInt(4242), ThisUpdate: time.Now().Add(-500 * 24 * time.Hour)}
+	switch variant {
+	case "revoked":
+		tpl.Status, tpl.RevokedAt, tpl.RevocationReason = ocsp.Revoked, time.Now().Add(-24*time.Hour), ocsp.KeyCompromise
+	case "unknown":
+		tpl.Status = ocsp.Unknown
+	case "recent":
+		tpl.ThisUpdate = time.Now().Add(-time.Hour)
+	case "future_this":
+		tpl.ThisUpdate = time.Now().Add(time.Hour)
+	case "withcert":
+		tpl.Certificate = m.ca.Cert
+	}
 	if withNext {
 		tpl.NextUpdate = nextUpdate
 	}
@@ -318,13 +432,24 @@ func c18SiteName(key string) string {
 func (m *c18Mat) bytesOf(it c18Item, now time.Time) []byte {
 	switch it.Kind {
 	case "cert":
+		if it.Off2 != 0 { // NotBefore chosen: a certificate that is not valid yet, or a very long-lived one
+			return m.certNB(c18SiteName(it.Key), now.Add(time.Duration(it.Off2)*time.Second), now.Add(time.Duration(it.Off)*time.Second))
+		}
 		return m.cert(c18SiteName(it.Key), now.Add(time.Duration(it.Off)*time.Second))
+	case "bundle":
+		return m.bundle(it, now)
 	case "staple":
-		return m.staple(now.Add(time.Duration(it.Off)*time.Second), true)
+		return m.stapleV(now.Add(time.Duration(it.Off)*time.Second), true, it.Text)
 	case "staple0":
 		return m.staple(time.Time{}, false)
 	case "lastclean":
 		b, _ := json.Marshal(map[string]any{"tls": map[string]any{"timestamp": now.Add(time.Duration(it.Off) * time.Second), "instance_id": it.Text}})
+		return b
+	case "lastclean_multi": // further entries beside "tls" (Off2 = their time stamp): only "tls" counts
+		b, _ := json.Marshal(map[string]any{
+			"tls":     map[string]any{"timestamp": now.Add(time.Duration(it.Off) * time.Second), "instance_id": it.Text},
+			"storage": map[string]any{"timestamp": now.Add(time.Duration(it.Off2) * time.Second), "instance_id": "someone-else"},
+			"aaa":     map[string]any{"timestamp": now.Add(time.Duration(it.Off2) * time.Second)}})
 		return b
 	case "lastclean_notls":
 		return []byte(`{"other":{"timestamp":"2020-01-01T00:00:00Z"}}`)
@@ -399,6 +524,36 @@ type c18Backend interface {
 	// (ok = false: the Store fails -- a directory in the way, a file where a directory is needed -- nothing happens)
 	fput(key string, val []byte) (newDirs []string, ok bool)
 	fdel(key string)
+	// fpartial removes what key covers except the last file below it (and the folders leading to it); returns the
+	// keys that survive (nothing below key: everything goes)
+	fpartial(key string) []string
+}
+
+// c18Partial: which of the keys at or below key survive a partial Delete, given the snapshot
+func c18Partial(snap map[string]c18Node, key string) (keep []string, remove []string) {
+	var files, all []string
+	for k, n := range snap {
+		if k == key || strings.HasPrefix(k, key+"/") {
+			all = append(all, k)
+			if !n.Dir && k != key {
+				files = append(files, k)
+			}
+		}
+	}
+	sort.Strings(files)
+	sort.Strings(all)
+	if len(files) == 0 {
+		return nil, all
+	}
+	last := files[len(files)-1]
+	for _, k := range all {
+		if k == last || strings.HasPrefix(last, k+"/") {
+			keep = append(keep, k)
+		} else {
+			remove = append(remove, k)
+		}
+	}
+	return keep, remove
 }
 
 type c18MemBE struct{ b *doubles.MemBackend }
@@ -417,6 +572,13 @@ func (m *c18MemBE) fput(k string, v []byte) ([]string, bool) {
 	return nil, true
 }
 func (m *c18MemBE) fdel(k string)                    { m.b.Handle("c18-foreign").Delete(context.Background(), k) }
+func (m *c18MemBE) fpartial(key string) []string {
+	keep, remove := c18Partial(m.snapshot(), key)
+	for _, k := range remove {
+		m.fdel(k)
+	}
+	return keep
+}
 func (m *c18MemBE) snapshot() map[string]c18Node {
 	out := map[string]c18Node{}
 	for _, k := range m.b.Keys() {
@@ -457,6 +619,24 @@ func (f *c18FsBE) fput(k string, v []byte) (newDirs []string, ok bool) {
 	return newDirs, true
 }
 func (f *c18FsBE) fdel(k string) { os.RemoveAll(filepath.Join(f.dir, filepath.FromSlash(k))) }
+func (f *c18FsBE) fpartial(key string) []string {
+	keep, remove := c18Partial(f.snapshot(), key)
+	for i := len(remove) - 1; i >= 0; i-- { // children before their folders
+		os.Remove(filepath.Join(f.dir, filepath.FromSlash(remove[i])))
+	}
+	return keep
+}
+
+const c18LockFile = "locks/storage_clean.lock"
+
+// writeLock puts a lock file for storage_clean in place whose holder refreshed it age ago
+func (f *c18FsBE) writeLock(age time.Duration) {
+	t := time.Now().Add(-age)
+	b, _ := json.Marshal(map[string]any{"created": t, "updated": t})
+	p := filepath.Join(f.dir, filepath.FromSlash(c18LockFile))
+	os.MkdirAll(filepath.Dir(p), 0o700)
+	os.WriteFile(p, b, 0o644)
+}
 func (f *c18FsBE) snapshot() map[string]c18Node {
 	out := map[string]c18Node{}
 	filepath.Walk(f.dir, func(p string, info os.FileInfo, err error) error {
@@ -465,6 +645,9 @@ func (f *c18FsBE) snapshot() map[string]c18Node {
 		}
 		rel, _ := filepath.Rel(f.dir, p)
 		k := filepath.ToSlash(rel)
+		if k == c18LockFile {
+			return nil // the Locker's own state, not Storage content
+		}
 		if info.IsDir() {
 			out[k] = c18Node{Dir: true}
 		} else {
@@ -483,6 +666,8 @@ type c18RunObs struct {
 	T0, T1 time.Time
 	Res    int
 	Err    string
+	Killed int              // call number at which the process died (0 = it did not)
+	Kept   map[int][]string // partial Deletes: call number -> surviving keys
 }
 
 func c18ResClass(err error) int {
@@ -555,6 +740,14 @@ func (m *c18Mat) execute(spec c18Spec) *c18Exec {
 	}
 	ex := &c18Exec{spec: spec, started: now, fops: map[int][]c18FopObs{}}
 	ex.before = be.snapshot()
+	if fb, ok := be.(*c18FsBE); ok {
+		switch spec.PreLock {
+		case "stale":
+			fb.writeLock(time.Hour)
+		case "live":
+			fb.writeLock(-time.Hour) // refreshed "in an hour": fresh however slowly this machine gets to the Lock call
+		}
+	}
 	tr := &c18Trace{}
 	obs := make([]c18RunObs, len(spec.Runs))
 	runOne := func(i int, w *c18Wrap) {
@@ -565,23 +758,53 @@ func (m *c18Mat) execute(spec c18Spec) *c18Exec {
 		opts := certmagic.CleanStorageOptions{Logger: zap.NewNop(), InstanceID: r.Inst, Interval: time.Duration(r.Interval),
 			OCSPStaples: r.OCSP, ExpiredCerts: r.Certs, ExpiredCertGracePeriod: time.Duration(r.Grace)}
 		t0 := time.Now()
-		err := certmagic.CleanStorage(ctx, w, opts)
+		var err error
+		killed := 0
+		func() {
+			defer func() {
+				if p := recover(); p != nil {
+					if _, ok := p.(c18KilledPanic); !ok {
+						panic(p)
+					}
+					killed = w.killAt
+				}
+			}()
+			err = certmagic.CleanStorage(ctx, w, opts)
+		}()
 		t1 := time.Now()
+		if killed > 0 {
+			// the process is dead; an hour passes: its lock file is no longer refreshed (the heartbeat goroutine of
+			// this process stops at its next wake-up because the file's "created" is no longer the one it wrote)
+			if fb, ok := be.(*c18FsBE); ok {
+				fb.writeLock(time.Hour)
+			}
+		}
 		if !w.tLock.IsZero() {
 			t0 = w.tLock // every clock reading of the run lies between Lock's return and Unlock's call
 		}
 		if !w.tUnlock.IsZero() {
 			t1 = w.tUnlock
 		}
-		o := c18RunObs{Tid: i, T0: t0, T1: t1, Res: c18ResClass(err)}
+		o := c18RunObs{Tid: i, T0: t0, T1: t1, Res: c18ResClass(err), Killed: killed, Kept: w.kept}
 		if err != nil {
 			o.Err = err.Error()
+		}
+		if killed > 0 {
+			o.Res, o.Err = 9, "killed"
 		}
 		obs[i] = o
 	}
 	mk := func(i int) *c18Wrap {
 		r := spec.Runs[i]
-		w := &c18Wrap{inner: be.storage(), tid: i, tr: tr, faults: map[int]bool{}, efaults: map[int]bool{}, cancelAt: r.Cancel, gateAt: -1}
+		w := &c18Wrap{inner: be.storage(), tid: i, tr: tr, faults: map[int]bool{}, efaults: map[int]bool{}, cancelAt: r.Cancel, gateAt: -1,
+			pfaults: map[int]bool{}, kept: map[int][]string{}, partial: be.fpartial,
+			lockTimeout: time.Duration(spec.LockTimeoutMs) * time.Millisecond}
+		for _, f := range r.PFaults {
+			w.pfaults[f] = true
+		}
+		if spec.Backend == "fs" { // the double's lock does not expire: a dead holder would block the next cleaner for ever
+			w.killAt = r.Kill
+		}
 		for _, f := range r.Faults {
 			w.faults[f] = true
 		}
@@ -650,6 +873,9 @@ func (m *c18Mat) execute(spec c18Spec) *c18Exec {
 			}
 			runOne(i, mk(i))
 		}
+	}
+	if fb, ok := be.(*c18FsBE); ok && spec.PreLock == "live" {
+		os.Remove(filepath.Join(fb.dir, filepath.FromSlash(c18LockFile)))
 	}
 	ex.after = be.snapshot()
 	ex.trace = append([]c18Event(nil), tr.evs...)
@@ -765,6 +991,13 @@ func (ex *c18Exec) encode() (wire string, obs map[string]any, feats map[string]s
 			id(fo.Key)
 		}
 	}
+	for _, r := range ex.runs {
+		for _, ks := range r.Kept {
+			for _, k := range ks {
+				id(k)
+			}
+		}
+	}
 	// value table: distinct byte strings of both snapshots; fresh = not among the initial values
 	type val struct {
 		fresh bool
@@ -872,8 +1105,12 @@ func (ex *c18Exec) encode() (wire string, obs map[string]any, feats map[string]s
 		rs := ex.spec.Runs[r.Tid]
 		e.Int(r.Tid).Z(rs.Interval).Bool(rs.OCSP).Bool(rs.Certs).Z(rs.Grace)
 		pstr(rs.Inst)
-		e.Len(len(rs.Faults))
-		for _, f := range rs.Faults {
+		faults := rs.Faults
+		if ex.spec.PreLock == "live" && ex.spec.Backend == "fs" {
+			faults = append([]int{0}, faults...) // a live holder for longer than the caller waits: Lock fails
+		}
+		e.Len(len(faults))
+		for _, f := range faults {
 			e.Int(f)
 		}
 		e.Len(len(rs.EFaults))
@@ -898,6 +1135,23 @@ func (ex *c18Exec) encode() (wire string, obs map[string]any, feats map[string]s
 			default:
 				e.Int(0).Int(id(fo.Key)).Int(vidx[sha256.Sum256(fo.Val)])
 			}
+		}
+		var pidx []int
+		for i := range r.Kept {
+			pidx = append(pidx, i)
+		}
+		sort.Ints(pidx)
+		e.Len(len(pidx))
+		for _, i := range pidx {
+			e.Int(i).Len(len(r.Kept[i]))
+			for _, k := range r.Kept[i] {
+				e.Int(id(k))
+			}
+		}
+		if r.Killed > 0 {
+			e.Bool(true).Int(r.Killed)
+		} else {
+			e.Bool(false)
 		}
 	}
 	e.Len(len(ex.trace))
@@ -991,13 +1245,59 @@ func (g *c18Gen) site(items *[]c18Item, hist func(string), backend, issuer, site
 	add := func(k, kind string, off int64, text, why string) {
 		*items = append(*items, c18Item{Key: k, Kind: kind, Off: off, Text: text, Why: why})
 	}
-	kind := g.pick("valid", "expired_lt_grace", "expired_ge_grace", "expired_ge_grace", "malformed", "crt_only", "key_only", "foreign", "second_crt", "empty_dir", "nested", "keydir", "crtdir", "dotcrt")
+	kind := g.pick("valid", "expired_lt_grace", "expired_ge_grace", "expired_ge_grace", "malformed", "crt_only", "key_only", "foreign", "second_crt", "empty_dir", "nested", "keydir", "crtdir", "dotcrt",
+		"bundle", "bundle", "bundle")
 	hist("site=" + kind)
 	switch kind {
 	case "valid", "expired_lt_grace", "expired_ge_grace":
-		add(base+".crt", "cert", g.certOff(kind, grace), "", kind)
+		off := g.certOff(kind, grace)
+		it := c18Item{Key: base + ".crt", Kind: "cert", Off: off, Why: kind}
+		switch g.r.Intn(6) {
+		case 0:
+			if kind == "valid" { // not valid YET: NotBefore in an hour, NotAfter far away -- not expired
+				it.Off, it.Off2 = 90*86400, 3600
+				hist("cert_notbefore=future")
+			}
+		case 1: // issued long ago (a 10-year certificate)
+			it.Off2 = off - 3650*86400
+			hist("cert_notbefore=10y")
+		}
+		*items = append(*items, it)
 		add(base+".key", "raw", 0, "@key", "")
-		add(base+".json", "raw", 0, `{"sans":["`+site+`"]}`, "")
+		// the metadata may say anything (ARI window long past, "replaced"): only the certificate's own expiry counts
+		add(base+".json", "raw", 0, g.pick(`{"sans":["`+site+`"]}`, `{"sans":["`+site+`"]}`,
+			`{"sans":["`+site+`"],"issuer_data":{"renewal_info":{"suggestedWindow":{"start":"2020-01-01T00:00:00Z","end":"2020-01-02T00:00:00Z"},"_selectedTime":"2020-01-01T12:00:00Z"},"replaced":true}}`,
+			`{"sans":["other.example"],"issuer_data":{"url":"https://ca.example/cert/1","not_after":"2001-01-01T00:00:00Z"}}`), "")
+	case "bundle":
+		// a .crt with several PEM blocks: only the first one -- the leaf, as certmagic stores it -- decides. The chain
+		// may hold an intermediate that expired long ago (old cross-sign kept for compatibility) or expires before the
+		// leaf; the leaf may come second; there may be other blocks or text
+		layout := g.pick("leaf+int", "leaf+int", "leaf+int", "leaf+int+int", "int+leaf", "leaf+key", "text+leaf", "key+leaf")
+		gs := grace / 1e9
+		leafClass := g.pick("valid", "valid", "expired_lt_grace", "expired_ge_grace")
+		off := g.certOff(leafClass, grace)
+		var off2 int64
+		switch g.r.Intn(3) {
+		case 0: // expired for at least the grace period
+			off2 = -gs - []int64{10, 86400, 400 * 86400}[g.r.Intn(3)]
+		case 1: // expires before a valid leaf, or is expired for less than the grace period
+			off2 = off - []int64{2, 3600}[g.r.Intn(2)]
+			if off2 <= -gs {
+				off2 = -gs + 3
+			}
+		case 2:
+			off2 = 5 * 365 * 86400
+		}
+		if layout == "int+leaf" {
+			// the first block decides: keep it unambiguous -- a valid intermediate in front of a leaf of any class
+			if off2 <= 0 {
+				off2 = 5 * 365 * 86400
+			}
+		}
+		hist("bundle=" + layout)
+		*items = append(*items, c18Item{Key: base + ".crt", Kind: "bundle", Off: off, Off2: off2, Text: layout, Why: "bundle"})
+		add(base+".key", "raw", 0, "@key", "")
+		add(base+".json", "raw", 0, `{}`, "")
 	case "malformed":
 		add(base+".crt", "raw", 0, g.pick("garbage", "", "@wrongpem", "@badder", "@key"), "malformed")
 		add(base+".key", "raw", 0, "@key", "")
@@ -1057,6 +1357,9 @@ func (g *c18Gen) site(items *[]c18Item, hist func(string), backend, issuer, site
 	case "keydir": // X.key is a folder
 		add(base+".crt", "cert", g.certOff(g.pick("valid", "expired_ge_grace"), grace), "", "keydir")
 		add(base+".key/inner.pem", "raw", 0, "@key", "")
+		if g.r.Intn(2) == 0 { // two files below: a Delete of X.key can take effect in part
+			add(base+".key/sub/other.pem", "raw", 0, "@key", "")
+		}
 		add(base+".json", "raw", 0, `{}`, "")
 	}
 }
@@ -1081,10 +1384,20 @@ func (g *c18Gen) spec(hist func(string)) c18Spec {
 		run.Interval = hour
 	case "recent":
 		run.Interval = 2 * hour
-		add("last_clean.json", "lastclean", -[]int64{3, 3600, 7190}[g.r.Intn(3)], "prev")
+		if g.r.Intn(3) == 0 { // other entries in the file say "long ago": only "tls" counts
+			items = append(items, c18Item{Key: "last_clean.json", Kind: "lastclean_multi", Off: -[]int64{3, 3600}[g.r.Intn(2)], Off2: -400 * 86400, Text: "prev"})
+			hist("last_clean_multi=recent")
+		} else {
+			add("last_clean.json", "lastclean", -[]int64{3, 3600, 7190}[g.r.Intn(3)], "prev")
+		}
 	case "old":
 		run.Interval = hour
-		add("last_clean.json", "lastclean", -[]int64{3610, 86400, 3 * 365 * 86400}[g.r.Intn(3)], "prev")
+		if g.r.Intn(3) == 0 { // other entries in the file are recent: only "tls" counts
+			items = append(items, c18Item{Key: "last_clean.json", Kind: "lastclean_multi", Off: -[]int64{3610, 86400}[g.r.Intn(2)], Off2: -5, Text: "prev"})
+			hist("last_clean_multi=old")
+		} else {
+			add("last_clean.json", "lastclean", -[]int64{3610, 86400, 3 * 365 * 86400}[g.r.Intn(3)], "prev")
+		}
 	case "future":
 		run.Interval = hour
 		add("last_clean.json", "lastclean", 600, "prev")
@@ -1108,6 +1421,9 @@ func (g *c18Gen) spec(hist func(string)) c18Spec {
 	}
 	// certificates
 	nIss := 1 + g.r.Intn(2)
+	if g.r.Intn(8) == 0 {
+		nIss = 3
+	}
 	certsIsFile := false
 	if g.r.Intn(12) == 0 {
 		nIss = 0
@@ -1117,9 +1433,13 @@ func (g *c18Gen) spec(hist func(string)) c18Spec {
 			certsIsFile = true
 		}
 	}
-	siteNames := []string{"a.example", "b.example.com", "wildcard_.c.example", "d-e.example", "f.example", "10.0.0.1", "zz.example"}
+	// names in which ".crt" occurs before the extension, or that end in letters of ".crt" (a base name derived by
+	// Replace / TrimRight instead of TrimSuffix goes wrong on them)
+	siteNames := []string{"a.example", "b.example.com", "wildcard_.c.example", "d-e.example", "f.example", "10.0.0.1", "zz.example",
+		"my.crt.example", "router.net"}
 	for i := 0; i < nIss; i++ {
-		issuer := []string{g.pick("le-dir", "le-dir", "acme-v02.api.letsencrypt.org-directory"), "zs-dv90"}[i]
+		issuer := []string{g.pick("le-dir", "le-dir", "acme-v02.api.letsencrypt.org-directory"), "zs-dv90",
+			g.pick("acme-staging-v02.api.letsencrypt.org-directory", "local", "ca.internal-acme-directory")}[i]
 		ns := 1 + g.r.Intn(4)
 		perm := g.r.Perm(len(siteNames))
 		for j := 0; j < ns; j++ {
@@ -1152,10 +1472,10 @@ func (g *c18Gen) spec(hist func(string)) c18Spec {
 		kind := g.pick("fresh", "fresh", "expired", "expired", "corrupt", "nonext", "dir", "certbytes")
 		hist("staple=" + kind)
 		switch kind {
-		case "fresh":
-			add(k, "staple", []int64{4, 3600, 7 * 86400}[g.r.Intn(3)], "")
+		case "fresh": // whatever else the response says (revoked, unknown, produced long ago or "in the future")
+			add(k, "staple", []int64{4, 3600, 7 * 86400}[g.r.Intn(3)], g.pick("", "", "revoked", "unknown", "recent", "future_this", "withcert"))
 		case "expired":
-			add(k, "staple", -[]int64{4, 3600, 400 * 86400}[g.r.Intn(3)], "")
+			add(k, "staple", -[]int64{4, 3600, 400 * 86400}[g.r.Intn(3)], g.pick("", "", "revoked", "unknown", "recent", "withcert"))
 		case "corrupt":
 			add(k, "raw", 0, g.pick("garbage", "", "@truncstaple", "@key"))
 		case "nonext":
@@ -1279,13 +1599,14 @@ func c18RaceWindow(dry []c18Event, at int, k string) bool {
 	return false
 }
 
-// foreign adds 1-2 foreign operations to the (single) run of sp, placed at calls of the
-// interference-free execution dry; returns whether one of them falls into a race window.
-func (g *c18Gen) foreign(sp *c18Spec, dry []c18Event, hist func(string)) (race bool) {
+// foreign adds the operations of 1-3 other actors (each at its own instant, each of its own kind) to run ri of
+// sp, placed at calls of the interference-free execution dry (the run's own calls); returns whether one of
+// them falls into a race window.
+func (g *c18Gen) foreign(sp *c18Spec, ri int, dry []c18Event, hist func(string)) (race bool) {
 	if len(dry) < 4 {
 		return false
 	}
-	run := &sp.Runs[0]
+	run := &sp.Runs[ri]
 	var sites, crts, staples, all []string
 	seen := map[string]bool{}
 	for _, it := range sp.Items {
@@ -1307,9 +1628,14 @@ func (g *c18Gen) foreign(sp *c18Spec, dry []c18Event, hist func(string)) (race b
 			staples = append(staples, it.Key)
 		}
 	}
-	// one kind of operation at one instant (the generator's race-window label and the monitor's
-	// baseline are defined for that; several writers at several instants multiply windows, not kinds)
-	for q := 0; q < 1; q++ {
+	// several actors at several instants (two times out of five): the monitor judges a deletion by what the
+	// storage held after any of the others' operations (Check.states_since_touch)
+	nAct := 1
+	if g.r.Intn(5) < 2 {
+		nAct = 2 + g.r.Intn(2)
+	}
+	hist(fmt.Sprintf("foreign_actors=%d", nAct))
+	for q := 0; q < nAct; q++ {
 		// aim at the calls around Deletes half of the time (that is where the windows are)
 		at := 1 + g.r.Intn(len(dry)-2)
 		if g.r.Intn(3) != 0 {
@@ -1372,9 +1698,11 @@ func (g *c18Gen) foreign(sp *c18Spec, dry []c18Event, hist func(string)) (race b
 			}
 			add(true, c18Item{Key: k})
 		case "account":
-			add(false, c18Item{Key: "acme/le-dir/users/new@example.com/new.key", Kind: "raw", Text: "@key"})
+			add(false, c18Item{Key: fmt.Sprintf("acme/le-dir/users/new%d@example.com/new.key", q), Kind: "raw", Text: "@key"})
 		}
 	}
+	// the wrapper applies the operations of one instant in the order given; keep instants in time order
+	sort.SliceStable(run.Fops, func(i, j int) bool { return run.Fops[i].At < run.Fops[j].At })
 	return race
 }
 
@@ -1492,6 +1820,77 @@ func c18Corpus() []struct {
 			spec  c18Spec
 		}{"corpus_record_effect_then_error", c18Spec{Backend: "fs", Items: one, Runs: []c18Run{r3, r4}}})
 	}
+	// certificate files with several PEM blocks: the leaf (first block) decides, whatever else the file holds. The sites:
+	// valid leaf + intermediate expired 400 d ago (must stay), valid leaf + intermediate that expires before it (stays),
+	// valid intermediate first + long-expired leaf second (the first block decides: stays), long-expired leaf + valid
+	// intermediate + key block + text (goes), valid leaf with two old intermediates (stays)
+	for _, be := range []string{"fs", "mem"} {
+		bsite := func(site, layout string, off, off2 int64) []c18Item {
+			b := "certificates/iss/" + site + "/" + site
+			return []c18Item{{Key: b + ".crt", Kind: "bundle", Off: off, Off2: off2, Text: layout},
+				{Key: b + ".key", Kind: "raw", Text: "@key"}, {Key: b + ".json", Kind: "raw", Text: "{}"}}
+		}
+		var its []c18Item
+		its = append(its, bsite("a-oldchain.example", "leaf+int", 60*day, -400*day)...)
+		its = append(its, bsite("b-shortchain.example", "leaf+int", 60*day, 10*day)...)
+		its = append(its, bsite("c-swapped.example", "int+leaf", -400*day, 900*day)...)
+		its = append(its, bsite("d-dead.example", "leaf+key", -400*day, 900*day)...)
+		its = append(its, bsite("e-twoold.example", "leaf+int+int", 30*day, -40*day)...)
+		its = append(its, bsite("f-text.example", "text+leaf", 30*day, -40*day)...)
+		for _, gr := range []int64{0, 30 * day * 1e9} {
+			r := c18Run{Certs: true, OCSP: true, Grace: gr, Cancel: -1, Inst: "corpus"}
+			out = append(out, struct {
+				class string
+				spec  c18Spec
+			}{"corpus_bundles", c18Spec{Backend: be, Items: its, Runs: []c18Run{r}}})
+		}
+	}
+	// a cleaner killed while it holds the lock (FileStorage): run 1 dies when its call 6 begins (X.crt deleted, X.key and
+	// X.json not yet); its lock file goes stale; run 2 removes the stale lock and cleans what it finds (the orphans stay:
+	// nothing says they are expired). Calls of run 1: 0 Lock, 1 List certificates, 2 List iss, 3 List site, 4 Load crt,
+	// 5 Delete crt, 6 Delete key ...
+	{
+		its := append(full("iss", "dead.example", -30*day), full("iss", "live.example", 30*day)...)
+		its = append(its, c18Item{Key: "ocsp/a-2", Kind: "staple", Off: -3600}, c18Item{Key: "acme/ca/users/u/u.key", Kind: "raw", Text: "@key"})
+		r1 := c18Run{Certs: true, Grace: 0, Cancel: -1, Inst: "dies", Kill: 6}
+		r2 := c18Run{Certs: true, OCSP: true, Grace: 0, Cancel: -1, Inst: "next", Interval: int64(2 * time.Hour)}
+		out = append(out, struct {
+			class string
+			spec  c18Spec
+		}{"corpus_killed_then_cleaned", c18Spec{Backend: "fs", Items: its, Runs: []c18Run{r1, r2}}})
+		// killed when its Unlock begins (call 12 here: ... 8 List site, 9 Stat, 10 Delete site, 11 Store, 12 Unlock):
+		// everything done and recorded, the lock never released; the next cleaner gets the lock after staleness and,
+		// within the interval, does nothing
+		one := full("iss", "dead.example", -30*day)
+		r3 := c18Run{Certs: true, Grace: 0, Cancel: -1, Inst: "dies", Kill: 12}
+		out = append(out, struct {
+			class string
+			spec  c18Spec
+		}{"corpus_killed_before_unlock", c18Spec{Backend: "fs", Items: one, Runs: []c18Run{r3, r2}}})
+		// a stale lock file of a holder that died an hour ago is there before the first cleaning: it proceeds
+		out = append(out, struct {
+			class string
+			spec  c18Spec
+		}{"corpus_stale_lock_at_start", c18Spec{Backend: "fs", Items: its, Runs: []c18Run{r2}, PreLock: "stale"}})
+		// a live holder keeps the lock for longer than the caller waits: CleanStorage returns an error, nothing is touched
+		out = append(out, struct {
+			class string
+			spec  c18Spec
+		}{"corpus_live_lock_held", c18Spec{Backend: "fs", Items: its, Runs: []c18Run{r2}, PreLock: "live", LockTimeoutMs: 300}})
+	}
+	// a Delete that takes effect in part: X.key is a folder with two files; Delete(X.key) (call 6) removes one, then
+	// fails; the run goes on (X.json goes), the site folder is not empty and stays
+	for _, be := range []string{"fs", "mem"} {
+		b := "certificates/iss/dead.example/dead.example"
+		its := []c18Item{{Key: b + ".crt", Kind: "cert", Off: -30 * day}, {Key: b + ".key/inner/a.pem", Kind: "raw", Text: "@key"},
+			{Key: b + ".key/inner/b.pem", Kind: "raw", Text: "@key"}, {Key: b + ".json", Kind: "raw", Text: "{}"},
+			{Key: "acme/ca/users/u/u.key", Kind: "raw", Text: "@key"}}
+		r := c18Run{Certs: true, Grace: 0, Cancel: -1, Inst: "corpus", PFaults: []int{6}}
+		out = append(out, struct {
+			class string
+			spec  c18Spec
+		}{"corpus_partial_delete", c18Spec{Backend: be, Items: its, Runs: []c18Run{r}}})
+	}
 	// two concurrent cleaners, second one must wait and then skip / clean again
 	items := append(full("iss", "dead.example", -30*day), full("iss", "live.example", 30*day)...)
 	items = append(items, c18Item{Key: "ocsp/a-2", Kind: "staple", Off: -3600})
@@ -1540,11 +1939,26 @@ func runC18(tier string, seed int64, outdir string, replay string) error {
 			}
 			c := c18Classify(n.Val)
 			bad := false
+			// expected NotAfter of the deciding (first) certificate: x509 times have second precision
+			want := func(off int64) *big.Int {
+				return c18UnixNs(ex.started.Add(time.Duration(off) * time.Second).Truncate(time.Second))
+			}
 			switch it.Kind {
+			case "bundle":
+				switch it.Text {
+				case "key+leaf":
+					bad = c.Cert != nil
+				case "int+leaf":
+					bad = c.Cert == nil || c.Cert.Cmp(want(it.Off2)) != 0
+				default:
+					bad = c.Cert == nil || c.Cert.Cmp(want(it.Off)) != 0
+				}
 			case "cert":
-				bad = c.Cert == nil
+				bad = c.Cert == nil || c.Cert.Cmp(want(it.Off)) != 0
 			case "staple", "staple0":
 				bad = c.Staple == nil || c.Cert != nil
+			case "lastclean_multi":
+				bad = c.Clean == nil || c.Clean.Cmp(c18UnixNs(ex.started.Add(time.Duration(it.Off)*time.Second))) != 0
 			case "lastclean", "lastclean_notls":
 				bad = c.Clean == nil
 			case "raw":
@@ -1587,8 +2001,23 @@ func runC18(tier string, seed int64, outdir string, replay string) error {
 				}
 			}
 		}
+		killedAny, partialAny := false, false
+		for _, r := range ex.runs {
+			if r.Killed > 0 {
+				killedAny = true
+			}
+			if len(r.Kept) > 0 {
+				partialAny = true
+			}
+		}
 		desc := map[string]any{"class": class, "backend": spec.Backend, "runs": len(spec.Runs), "concurrent": spec.Concurrent,
-			"foreign_ops": nForeign, "race_window": race}
+			"foreign_ops": nForeign, "race_window": race, "killed": killedAny, "partial_delete": partialAny}
+		if killedAny {
+			w.Hist("killed=true")
+		}
+		if partialAny {
+			w.Hist("partial_delete=true")
+		}
 		if nForeign > 0 {
 			w.Hist(fmt.Sprintf("foreign_race_window=%v", race))
 		}
@@ -1633,7 +2062,7 @@ func runC18(tier string, seed int64, outdir string, replay string) error {
 	g := &c18Gen{r: rand.New(rand.NewSource(seed))}
 	for i := 0; i < n; i++ {
 		sp := g.spec(w.Hist)
-		if len(sp.Runs[0].Faults) == 0 && sp.Runs[0].Cancel < 0 && !sp.Concurrent && g.r.Intn(6) == 0 {
+		if len(sp.Runs[0].Faults) == 0 && sp.Runs[0].Cancel < 0 && !sp.Concurrent && g.r.Intn(3) == 0 {
 			// a fault (or the cancellation) aimed at a call of a chosen kind of the fault-free execution
 			dry := mat.execute(sp)
 			var own []c18Event
@@ -1668,6 +2097,42 @@ func runC18(tier string, seed int64, outdir string, replay string) error {
 				}
 				byKind[k] = append(byKind[k], j)
 			}
+			special := g.r.Intn(3)
+			var dels []int
+			for j, ev := range own {
+				if ev.Kind == 5 {
+					dels = append(dels, j)
+				}
+			}
+			if special == 0 && sp.Backend == "fs" && len(own) >= 3 && len(sp.Runs) == 1 {
+				// the process dies when one of its calls begins; the next cleaning follows after the lock went stale
+				sp.Runs[0].Kill = 1 + g.r.Intn(len(own)-1)
+				r2 := sp.Runs[0]
+				r2.Kill, r2.Inst, r2.OCSP, r2.Certs = 0, "after-kill", true, true
+				r2.Interval = []int64{0, 2 * int64(time.Hour)}[g.r.Intn(2)]
+				sp.Runs = append(sp.Runs, r2)
+				w.Hist("env=kill")
+				kinds = nil
+			} else if special == 1 && len(dels) > 0 {
+				// a Delete that takes effect in part; prefer one whose key has something below it
+				var deep []int
+				for _, j := range dels {
+					for _, it := range sp.Items {
+						if strings.HasPrefix(it.Key, own[j].Key+"/") {
+							deep = append(deep, j)
+							break
+						}
+					}
+				}
+				if len(deep) > 0 {
+					dels = deep
+					w.Hist("env=pfault:folder")
+				} else {
+					w.Hist("env=pfault:file")
+				}
+				sp.Runs[0].PFaults = []int{dels[g.r.Intn(len(dels))]}
+				kinds = nil
+			}
 			if len(kinds) > 0 {
 				k := kinds[g.r.Intn(len(kinds))]
 				at := byKind[k][g.r.Intn(len(byKind[k]))]
@@ -1684,11 +2149,20 @@ func runC18(tier string, seed int64, outdir string, replay string) error {
 				}
 			}
 		}
-		if len(sp.Runs) == 1 && g.r.Intn(3) == 0 {
-			// other actors write during the cleaning: place them at calls of the interference-free execution
+		if !sp.Concurrent && len(sp.Runs) <= 2 && g.r.Intn(3) == 0 {
+			// other actors write during a cleaning (the only one, or one of two that follow each other): place
+			// them at calls of the interference-free execution of that cleaning
 			dry := mat.execute(sp)
-			g.foreign(&sp, dry.trace, w.Hist)
-			if len(sp.Runs[0].Fops) > 0 {
+			ri := g.r.Intn(len(sp.Runs))
+			var own []c18Event
+			for _, ev := range dry.trace {
+				if ev.Tid == ri {
+					own = append(own, ev)
+				}
+			}
+			g.foreign(&sp, ri, own, w.Hist)
+			if len(sp.Runs[ri].Fops) > 0 {
+				w.Hist(fmt.Sprintf("foreign_in_run=%d/%d", ri+1, len(sp.Runs)))
 				one("generated_foreign", sp)
 				continue
 			}
